@@ -34,107 +34,268 @@ def lean_str(s: str) -> str:
 
 
 class Translator:
-    """SQL (sqlglot AST) -> Lean `Rel` term.  `schemas`: table name -> list of column names.
-    `params`: literal text -> Lean variable name (a literal equal to a registered parameter value becomes that variable)."""
+    """SQL (sqlglot AST) -> Lean `Rel` term.
+    `schemas`: table name -> list of column names; `coltypes`: table name -> list of types ('int' | 'rat' | 'bool' | 'str' | 'any'),
+    used only to refuse dialect-dependent integer division and to coerce CASE branches;
+    `params`: literal text -> (Lean variable name, type): a literal equal to a registered parameter value becomes that variable."""
 
-    def __init__(self, schemas: dict[str, list[str]], params: dict[str, str] | None = None):
+    AGGS = ("Min", "Max", "Count", "Sum")
+
+    def __init__(self, schemas, params=None, coltypes=None):
         self.schemas = schemas
-        self.params = params or {}
+        self.coltypes = coltypes if coltypes is not None else {}
+        self.params = {k: (v if isinstance(v, tuple) else (v, "any")) for k, v in (params or {}).items()}
         self.notes: list[str] = []
         self.used_params: list[str] = []
-        self._having = None  # while translating a HAVING clause: (keys, aggs, scope of the grouped relation)
+        self._g = None  # grouped context: dict(keys=[terms], aggs=[terms], aggt=[types], scope=inner scope)
+        self._extra = None  # per-SELECT list of extra columns (windows / scalar subqueries): dicts(kind, ...)
+        self.out_types: list[str] = []
 
-    # ----------------------------------------------------------------- expressions
+    # ----------------------------------------------------------------- expressions: -> (term, type)
     def resolve(self, col, scope) -> int:
-        from sqlglot import exp
-
         name = col.name
         tbl = col.table or None
-        hits = [i for i, (a, c) in enumerate(scope) if c.lower() == name.lower() and (tbl is None or (a or "").lower() == tbl.lower())]
+        hits = [i for i, (a, c, _) in enumerate(scope) if c is not None and c.lower() == name.lower() and (tbl is None or (a or "").lower() == tbl.lower())]
         if len(hits) != 1:
-            raise Untranslatable(f"column {col.sql()} resolves to {len(hits)} columns in scope {scope}")
+            raise Untranslatable(f"column {col.sql()} resolves to {len(hits)} columns in scope {[(a, c) for a, c, _ in scope]}")
         return hits[0]
 
     def expr(self, e, scope) -> str:
+        return self.expr_t(e, scope)[0]
+
+    def _agg_node(self, e):
         from sqlglot import exp
 
-        if isinstance(e, exp.Paren):
-            return self.expr(e.this, scope)
-        if isinstance(e, exp.Alias):
-            return self.expr(e.this, scope)
-        if self._having is not None:
-            # HAVING is evaluated on the grouped rows (keys ++ aggregates): aggregates and keys become positions there
-            keys, aggs, gscope = self._having
-            if isinstance(e, (exp.Min, exp.Max, exp.Count)):
-                self._having = None
+        if isinstance(e, exp.Filter) and isinstance(e.this, exp.Count):
+            return True
+        return isinstance(e, (exp.Min, exp.Max, exp.Count, exp.Sum))
+
+    def expr_t(self, e, scope):
+        from sqlglot import exp
+
+        if isinstance(e, (exp.Paren, exp.Alias)):
+            return self.expr_t(e.this, scope)
+        if isinstance(e, exp.Window):
+            return self._window(e, scope)
+        if isinstance(e, exp.Subquery):
+            return self._scalar_subquery(e)
+        if self._g is not None:
+            g = self._g
+            if self._agg_node(e):
+                self._g = None
                 try:
-                    a = self.agg(e, gscope)
+                    a, t = self.agg(e, g["scope"])
                 finally:
-                    self._having = (keys, aggs, gscope)
-                if a not in aggs:
-                    aggs.append(a)
-                return f"(Expr.col {len(keys) + aggs.index(a)})"
+                    self._g = g
+                if a not in g["aggs"]:
+                    g["aggs"].append(a)
+                    g["aggt"].append(t)
+                return f"(Expr.col {len(g['keys']) + g['aggs'].index(a)})", g["aggt"][g["aggs"].index(a)]
             if isinstance(e, exp.Column):
-                t = f"(Expr.col {self.resolve(e, gscope)})"
-                if t not in keys:
-                    raise Untranslatable(f"HAVING refers to {e.sql()} which is not a group key")
-                return f"(Expr.col {keys.index(t)})"
+                i = self.resolve(e, g["scope"])
+                t = f"(Expr.col {i})"
+                if t not in g["keys"]:
+                    raise Untranslatable(f"{e.sql()} is used next to aggregates but is not a group key")
+                return f"(Expr.col {g['keys'].index(t)})", g["scope"][i][2]
         if isinstance(e, exp.Column):
-            return f"(Expr.col {self.resolve(e, scope)})"
+            i = self.resolve(e, scope)
+            return f"(Expr.col {i})", scope[i][2]
         cmp = {exp.EQ: "eq", exp.NEQ: "ne", exp.LT: "lt", exp.LTE: "le", exp.GT: "gt", exp.GTE: "ge"}
         for k, v in cmp.items():
             if type(e) is k:
-                return f"(Expr.cmp Cmp.{v} {self.expr(e.this, scope)} {self.expr(e.expression, scope)})"
+                (a, ta), (b, tb) = self.expr_t(e.this, scope), self.expr_t(e.expression, scope)
+                if {ta, tb} == {"int", "rat"}:
+                    a, b = (f"(Expr.toRat {a})" if ta == "int" else a), (f"(Expr.toRat {b})" if tb == "int" else b)
+                return f"(Expr.cmp Cmp.{v} {a} {b})", "bool"
         if isinstance(e, exp.And):
-            return f"(Expr.and {self.expr(e.this, scope)} {self.expr(e.expression, scope)})"
+            return f"(Expr.and {self.expr(e.this, scope)} {self.expr(e.expression, scope)})", "bool"
         if isinstance(e, exp.Or):
-            return f"(Expr.or {self.expr(e.this, scope)} {self.expr(e.expression, scope)})"
+            return f"(Expr.or {self.expr(e.this, scope)} {self.expr(e.expression, scope)})", "bool"
         if isinstance(e, exp.Not):
-            return f"(Expr.not {self.expr(e.this, scope)})"
+            return f"(Expr.not {self.expr(e.this, scope)})", "bool"
         if isinstance(e, exp.Is) and isinstance(e.expression, exp.Null):
-            return f"(Expr.isNull {self.expr(e.this, scope)})"
+            return f"(Expr.isNull {self.expr(e.this, scope)})", "bool"
         if isinstance(e, exp.Coalesce):
             args = [e.this] + list(e.expressions)
-            out = self.expr(args[-1], scope)
-            for a in reversed(args[:-1]):
-                out = f"(Expr.coalesce {self.expr(a, scope)} {out})"
-            return out
+            parts = [self.expr_t(a, scope) for a in args]
+            out, t = parts[-1]
+            for a, ta in reversed(parts[:-1]):
+                out = f"(Expr.coalesce {a} {out})"
+                t = ta if t in ("any", ta) else t
+            return out, t
         if isinstance(e, exp.Null):
-            return "(Expr.lit Val.null)"
+            return "(Expr.lit Val.null)", "any"
         if isinstance(e, exp.Boolean):
-            return f"(Expr.lit (Val.bool {'true' if e.this else 'false'}))"
+            return f"(Expr.lit (Val.bool {'true' if e.this else 'false'}))", "bool"
         if isinstance(e, exp.Literal):
             txt = e.this
             if txt in self.params:
-                v = self.params[txt]
+                v, t = self.params[txt]
                 if v not in self.used_params:
                     self.used_params.append(v)
-                return f"(Expr.lit {v})"
+                return f"(Expr.lit {v})", t
             if e.is_string:
-                return f"(Expr.lit (Val.str {lean_str(txt)}))"
-            if re.fullmatch(r"-?\d+", txt):
-                return f"(Expr.lit (Val.int ({txt})))"
-            raise Untranslatable(f"non-integer numeric literal {txt} (not a registered parameter)")
-        if isinstance(e, exp.Neg) and isinstance(e.this, exp.Literal) and re.fullmatch(r"\d+", e.this.this):
-            return f"(Expr.lit (Val.int (-{e.this.this})))"
+                return f"(Expr.lit (Val.str {lean_str(txt)}))", "str"
+            if re.fullmatch(r"\d+", txt):
+                return f"(Expr.lit (Val.int ({txt})))", "int"
+            if re.fullmatch(r"\d+\.\d+", txt):
+                from fractions import Fraction
+
+                f = Fraction(txt)
+                return f"(Expr.lit (Val.rat (({f.numerator} : Rat) / {f.denominator})))", "rat"
+            raise Untranslatable(f"literal {txt}")
+        if isinstance(e, exp.Neg):
+            a, t = self.expr_t(e.this, scope)
+            if t not in ("int", "rat"):
+                raise Untranslatable(f"negation of a {t} value: {e.sql()[:60]}")
+            return f"(Expr.arith Arith.sub (Expr.lit (Val.int (0))) {a})", t
+        ar = {exp.Add: "add", exp.Sub: "sub", exp.Mul: "mul", exp.Div: "div"}
+        for k, v in ar.items():
+            if type(e) is k:
+                (a, ta), (b, tb) = self.expr_t(e.this, scope), self.expr_t(e.expression, scope)
+                if not (ta in ("int", "rat") and tb in ("int", "rat")):
+                    raise Untranslatable(f"arithmetic on values of type {ta}, {tb}: {e.sql()[:80]}")
+                if v == "div" and ta == "int" and tb == "int":
+                    raise Untranslatable(f"integer / integer is dialect-dependent (truncating on SQLite and Postgres): {e.sql()[:80]}")
+                return f"(Expr.arith Arith.{v} {a} {b})", ("int" if ta == tb == "int" else "rat")
+        if isinstance(e, exp.Case):
+            if e.this is not None:
+                raise Untranslatable("CASE <operand> WHEN")
+            branches = [(self.expr(i.this, scope), self.expr_t(i.args["true"], scope)) for i in e.args["ifs"]]
+            dflt = self.expr_t(e.args["default"], scope) if e.args.get("default") is not None else ("(Expr.lit Val.null)", "any")
+            types = {t for _, (_, t) in branches} | {dflt[1]}
+            types.discard("any")
+            coerce = types == {"int", "rat"}
+            if len(types) > 1 and not coerce:
+                raise Untranslatable(f"CASE branches of different types {types}")
+
+            def co(tt):
+                term, t = tt
+                return f"(Expr.toRat {term})" if coerce and t == "int" else term
+
+            out = co(dflt)
+            for c, tt in reversed(branches):
+                out = f"(Expr.case {c} {co(tt)} {out})"
+            return out, ("rat" if coerce else (types.pop() if types else "any"))
+        if isinstance(e, exp.Cast):
+            to = e.args["to"].sql().upper()
+            a, t = self.expr_t(e.this, scope)
+            if to in ("FLOAT", "FLOAT8", "DOUBLE", "REAL", "FLOAT4", "DOUBLE PRECISION") and t in ("int", "rat"):
+                return (f"(Expr.toRat {a})" if t == "int" else a), "rat"
+            raise Untranslatable(f"cast of a {t} value to {to}")
         raise Untranslatable(f"expression {type(e).__name__}: {e.sql()[:80]}")
 
     def agg(self, e, scope):
+        """-> (term, type) or None"""
         from sqlglot import exp
 
+        if isinstance(e, exp.Filter) and isinstance(e.this, exp.Count) and isinstance(e.this.this, exp.Star):
+            return f"(Agg.countIf {self.expr(e.expression.this, scope)})", "int"
         if isinstance(e, exp.Min):
-            return f"(Agg.min {self.expr(e.this, scope)})"
+            a, t = self.expr_t(e.this, scope)
+            return f"(Agg.min {a})", t
         if isinstance(e, exp.Max):
-            return f"(Agg.max {self.expr(e.this, scope)})"
+            a, t = self.expr_t(e.this, scope)
+            return f"(Agg.max {a})", t
+        if isinstance(e, exp.Sum):
+            a, t = self.expr_t(e.this, scope)
+            if t not in ("int", "rat"):
+                raise Untranslatable(f"sum of a {t} column")
+            return f"(Agg.sum {a})", t
         if isinstance(e, exp.Count):
             if isinstance(e.this, exp.Star):
-                return "Agg.countStar"
-            return f"(Agg.count {self.expr(e.this, scope)})"
+                return "Agg.countStar", "int"
+            return f"(Agg.count {self.expr(e.this, scope)})", "int"
         return None
+
+    def _window(self, e, scope):
+        """a window expression becomes one extra column appended to the (grouped) relation; returns a placeholder reference"""
+        from sqlglot import exp
+
+        if self._extra is None:
+            raise Untranslatable("window function outside a select list")
+        inner_scope = scope
+        g = self._g
+        if e.args.get("spec") is not None:
+            raise Untranslatable("window frame specification")
+        part = e.args.get("partition_by") or []
+        order = e.args.get("order")
+        # the aggregate of the window ranges over the rows of the (grouped) relation
+        if g is not None:
+            # partition / order expressions are over the grouped row (keys); the aggregate argument too
+            part_t = [self.expr(p, scope) for p in part]
+            self._g = None
+            try:
+                gscope = [(None, None, "any")] * 0
+                a = self._agg_over_grouped(e.this, g, scope)
+            finally:
+                self._g = g
+        else:
+            part_t = [self.expr(p, scope) for p in part]
+            a = self.agg(e.this, scope)
+        if a is None:
+            raise Untranslatable(f"window function {e.this.sql()[:60]}")
+        a, t = a
+        if order is not None:
+            if part:
+                raise Untranslatable("window with PARTITION BY and ORDER BY")
+            ords = order.expressions
+            if len(ords) != 1:
+                raise Untranslatable("window ORDER BY of several keys")
+            key = self.expr(ords[0].this, scope)
+            desc = bool(ords[0].args.get("desc"))
+            spec = {"kind": "cum", "key": key, "desc": desc, "agg": a}
+        else:
+            spec = {"kind": "part", "part": part_t, "agg": a}
+        if spec not in self._extra:
+            self._extra.append(spec)
+        return f"(Expr.col @X{self._extra.index(spec)}@)", t
+
+    def _agg_over_grouped(self, node, g, scope):
+        """aggregate of a window evaluated after GROUP BY: its argument may only mention group keys; COUNT(*) needs none"""
+        from sqlglot import exp
+
+        if isinstance(node, exp.Count) and isinstance(node.this, exp.Star):
+            return "Agg.countStar", "int"
+        self._g = g
+        try:
+            # arguments are translated in the grouped context (columns -> key positions, nested aggregates -> aggregate positions)
+            if isinstance(node, exp.Sum):
+                a, t = self.expr_t(node.this, scope)
+                return f"(Agg.sum {a})", t
+            if isinstance(node, exp.Min):
+                a, t = self.expr_t(node.this, scope)
+                return f"(Agg.min {a})", t
+            if isinstance(node, exp.Max):
+                a, t = self.expr_t(node.this, scope)
+                return f"(Agg.max {a})", t
+        finally:
+            self._g = None
+        return None
+
+    def _scalar_subquery(self, e):
+        """`(select agg(x) from T)` in expression position: the one-row global aggregate is cross-joined as one extra column"""
+        from sqlglot import exp
+
+        if self._extra is None:
+            raise Untranslatable("scalar subquery outside a select list")
+        saved = (self._g, self._extra)
+        self._g, self._extra = None, None
+        try:
+            term, cols = self.query(e.this)
+            types = list(self.out_types)
+        finally:
+            self._g, self._extra = saved
+        if len(cols) != 1 or "Rel.groupBy []" not in term:
+            raise Untranslatable(f"scalar subquery that is not a single global aggregate: {e.sql()[:80]}")
+        spec = {"kind": "scalar", "rel": term}
+        if spec not in self._extra:
+            self._extra.append(spec)
+        return f"(Expr.col @X{self._extra.index(spec)}@)", (types[0] if types else "any")
 
     # ----------------------------------------------------------------- relations
     def source(self, node):
-        """FROM / JOIN item -> (term, scope)"""
+        """FROM / JOIN item -> (term, scope); scope entries are (alias, column, type)"""
         from sqlglot import exp
 
         if isinstance(node, exp.Table):
@@ -142,15 +303,16 @@ class Translator:
             if name not in self.schemas:
                 raise Untranslatable(f"table {name} has no known schema")
             alias = node.alias or name
-            return f"(Rel.table {lean_str(name)})", [(alias, c) for c in self.schemas[name]]
+            types = self.coltypes.get(name) or ["any"] * len(self.schemas[name])
+            return f"(Rel.table {lean_str(name)})", [(alias, c, t) for c, t in zip(self.schemas[name], types)]
         if isinstance(node, exp.Subquery):
             term, cols = self.query(node.this)
             alias = node.alias or None
-            return term, [(alias, c) for c in cols]
+            return term, [(alias, c, t) for c, t in zip(cols, self.out_types)]
         raise Untranslatable(f"FROM item {type(node).__name__}")
 
     def query(self, node):
-        """-> (Lean term of type Rel, output column names)"""
+        """-> (Lean term of type Rel, output column names); the output types are left in self.out_types"""
         from sqlglot import exp
 
         if isinstance(node, exp.Subquery):
@@ -159,10 +321,12 @@ class Translator:
             if type(node) is not exp.Union:
                 raise Untranslatable(f"set operation {type(node).__name__}")
             a, ca = self.query(node.this)
+            ta = list(self.out_types)
             b, cb = self.query(node.expression)
             if len(ca) != len(cb):
                 raise Untranslatable("UNION of different widths")
             allf = "false" if node.args.get("distinct") else "true"
+            self.out_types = ta
             return f"(Rel.union {allf} {a} {b})", ca
         if not isinstance(node, exp.Select):
             raise Untranslatable(f"query {type(node).__name__}")
@@ -224,71 +388,110 @@ class Translator:
                 rel = f"(Rel.whereIn {'true' if neg else 'false'} {self.expr(inner.this, scope)} {sub} {rel})"
         sel = list(node.expressions)
         names = []
-        for s in sel:
-            if isinstance(s, exp.Star):
+        for s_ in sel:
+            if isinstance(s_, exp.Star):
                 names.append(None)
-            elif isinstance(s, exp.Alias):
-                names.append(s.alias)
-            elif isinstance(s, exp.Column):
-                names.append(s.name)
+            elif isinstance(s_, exp.Alias):
+                names.append(s_.alias)
+            elif isinstance(s_, exp.Column):
+                names.append(s_.name)
             else:
-                names.append(s.sql())
+                names.append(s_.sql())
         group = node.args.get("group")
-        has_agg = any(self.agg(s.this if isinstance(s, exp.Alias) else s, scope) is not None for s in sel if not isinstance(s, exp.Star))
-        if node.args.get("having") is not None and group is None:
+        having = node.args.get("having")
+        if having is not None and group is None:
             raise Untranslatable("HAVING without GROUP BY")
-        if group is not None or has_agg:
-            keys = [self.expr(k, scope) for k in (group.expressions if group is not None else [])]
-            aggs, order = [], []
-            for s in sel:
-                body = s.this if isinstance(s, exp.Alias) else s
-                a = None if isinstance(body, exp.Star) else self.agg(body, scope)
-                if a is not None:
-                    order.append(len(keys) + len(aggs))
-                    aggs.append(a)
-                else:
-                    if isinstance(body, exp.Star):
-                        raise Untranslatable("* with GROUP BY")
-                    t = self.expr(body, scope)
-                    if t not in keys:
-                        raise Untranslatable(f"select item {body.sql()} is neither a group key nor an aggregate")
-                    order.append(keys.index(t))
-            having = node.args.get("having")
-            hv = None
-            if having is not None:
-                self._having = (keys, aggs, scope)  # may append further aggregates (after those of the select list)
+
+        def has_agg(x):
+            for n in x.walk():
+                n = n[0] if isinstance(n, tuple) else n
+                if self._agg_node(n) and not isinstance(n.parent, exp.Window) and not (isinstance(n.parent, exp.Filter) and isinstance(n.parent.parent, exp.Window)):
+                    # an aggregate that is the function of a window is not a GROUP BY aggregate
+                    anc = n.parent
+                    in_sub = False
+                    while anc is not None and anc is not x:
+                        if isinstance(anc, exp.Subquery):
+                            in_sub = True
+                        anc = anc.parent
+                    if not in_sub:
+                        return True
+            return False
+
+        grouped = group is not None or any(has_agg(s_) for s_ in sel if not isinstance(s_, exp.Star))
+        saved_extra = self._extra
+        self._extra = []
+        try:
+            if grouped:
+                alias_of = {s_.alias.lower(): s_.this for s_ in sel if isinstance(s_, exp.Alias)}
+                keys = []
+                for k in group.expressions if group is not None else []:
+                    if isinstance(k, exp.Column) and not k.table and k.name.lower() in alias_of and not any(c is not None and c.lower() == k.name.lower() for _, c, _ in scope):
+                        k = alias_of[k.name.lower()]  # GROUP BY <select alias>
+                    keys.append(self.expr(k, scope))
+                g = {"keys": keys, "aggs": [], "aggt": [], "scope": scope}
+                self._g = g
                 try:
-                    hv = self.expr(having.this, scope)
+                    items = []
+                    for s_ in sel:
+                        if isinstance(s_, exp.Star):
+                            raise Untranslatable("* with GROUP BY")
+                        items.append(self.expr_t(s_, scope))
+                    hv = self.expr(having.this, scope) if having is not None else None
                 finally:
-                    self._having = None
-            rel = f"(Rel.groupBy [{', '.join(keys)}] [{', '.join(aggs)}] {rel})"
-            if hv is not None:
-                rel = f"(Rel.filter {hv} {rel})"
-            if order != list(range(len(keys) + len(aggs))):
-                rel = f"(Rel.project [{', '.join(f'(Expr.col {i})' for i in order)}] {rel})"
-            out_cols = names
-        elif len(sel) == 1 and isinstance(sel[0], exp.Star):
-            out_cols = [c for _, c in scope]
-        else:
-            es, out_cols = [], []
-            for s, nm in zip(sel, names):
-                if isinstance(s, exp.Star):
-                    for i, (_, c) in enumerate(scope):
-                        es.append(f"(Expr.col {i})")
-                        out_cols.append(c)
-                elif isinstance(s, exp.Column) and isinstance(s.this, exp.Star):
-                    for i, (a, c) in enumerate(scope):
-                        if (a or "").lower() == s.table.lower():
-                            es.append(f"(Expr.col {i})")
-                            out_cols.append(c)
+                    self._g = None
+                width = len(keys) + len(g["aggs"])
+                rel = f"(Rel.groupBy [{', '.join(keys)}] [{', '.join(g['aggs'])}] {rel})"
+                if hv is not None:
+                    if "@X" in hv:
+                        raise Untranslatable("window / scalar subquery in HAVING")
+                    rel = f"(Rel.filter {hv} {rel})"
+                out_cols = names
+                es = [t for t, _ in items]
+                types = [t for _, t in items]
+            else:
+                width = len(scope)
+                if len(sel) == 1 and isinstance(sel[0], exp.Star):
+                    es, out_cols, types = None, [c for _, c, _ in scope], [t for _, _, t in scope]
                 else:
-                    es.append(self.expr(s, scope))
-                    out_cols.append(nm)
-            rel = f"(Rel.project [{', '.join(es)}] {rel})"
+                    es, out_cols, types = [], [], []
+                    for s_, nm in zip(sel, names):
+                        if isinstance(s_, exp.Star):
+                            for i, (_, c, t) in enumerate(scope):
+                                es.append(f"(Expr.col {i})")
+                                out_cols.append(c)
+                                types.append(t)
+                        elif isinstance(s_, exp.Column) and isinstance(s_.this, exp.Star):
+                            for i, (a, c, t) in enumerate(scope):
+                                if (a or "").lower() == s_.table.lower():
+                                    es.append(f"(Expr.col {i})")
+                                    out_cols.append(c)
+                                    types.append(t)
+                        else:
+                            term, t = self.expr_t(s_, scope)
+                            es.append(term)
+                            out_cols.append(nm)
+                            types.append(t)
+            # extra columns: windows then scalar subqueries, in order of first use
+            for i, x in enumerate(self._extra):
+                if x["kind"] == "part":
+                    rel = f"(Rel.window [{', '.join(x['part'])}] {x['agg']} {rel})"
+                elif x["kind"] == "cum":
+                    rel = f"(Rel.windowCum {x['key']} {'true' if x['desc'] else 'false'} {x['agg']} {rel})"
+                else:
+                    rel = f"(Rel.join false (Expr.lit (Val.bool true)) {rel} {x['rel']} 1)"
+            if es is not None:
+                es = [re.sub(r"@X(\d+)@", lambda m: str(width + int(m.group(1))), t) for t in es]
+                if not (grouped and not self._extra and es == [f"(Expr.col {i})" for i in range(width)]):
+                    rel = f"(Rel.project [{', '.join(es)}] {rel})"
+            elif self._extra:
+                raise Untranslatable("SELECT * with window functions")
+        finally:
+            self._extra = saved_extra
         if node.args.get("distinct") is not None:
             rel = f"(Rel.distinct {rel})"
         if node.args.get("order") is not None:
             self.notes.append("ORDER BY dropped (bag semantics)")
+        self.out_types = types
         return rel, out_cols
 
     def statement(self, sql: str, dialect: str = "duckdb"):
@@ -347,6 +550,7 @@ def _subst(sql: str, mapping: dict[str, str]) -> str:
 
 
 def _norm(sql: str) -> str:
+    sql = re.sub(r"--[^\n]*", " ", sql)  # line comments would swallow the rest of the statement once newlines are gone
     return " ".join(sql.split())
 
 
@@ -471,11 +675,12 @@ def capture_cc():
 CC_BASE_SCHEMAS = {"edges_in": ["el", "er", "match_probability"], "nodes_in": ["nid"]}
 
 
-def _translate_seq(stmts, schemas, params, errors, prefix):
-    """Translate [(name, sql)] in order, extending `schemas`; -> [(lean_name, name, term, cols, used_params, sql)]"""
+def _translate_seq(stmts, schemas, params, errors, prefix, coltypes=None):
+    """Translate [(name, sql)] in order, extending `schemas` (and `coltypes`); -> [(name, term, cols, used_params, sql)]"""
     out = []
+    coltypes = coltypes if coltypes is not None else {}
     for nm, sql in stmts:
-        tr = Translator(schemas, params)
+        tr = Translator(schemas, params, coltypes)
         try:
             term, cols = tr.statement(sql)
         except Untranslatable as e:
@@ -483,6 +688,7 @@ def _translate_seq(stmts, schemas, params, errors, prefix):
             term, cols = None, []
         if term is not None:
             schemas[nm] = [c if c is not None else f"_c{i}" for i, c in enumerate(cols)]
+            coltypes[nm] = list(tr.out_types)
         out.append((nm, term, list(cols), list(tr.used_params), sql))
     return out
 
@@ -706,10 +912,133 @@ def write_multi() -> list[str]:
     return errors
 
 
+# --------------------------------------------------------------------------------------------------------------- graph metrics spec
+GM_THR = 0.4375
+GM_STMTS = [
+    "__splink__truncated_edges",
+    "__splink__all_nodes",
+    "__splink__graph_metrics_node_degree",
+    "__splink__graph_metrics_nodes",
+    "__splink__edges_with_mapped_ids",
+    "__splink__bridges_only",
+    "__splink__graph_metrics_edges",
+    "__splink__counts_per_cluster",
+    "__splink__graph_metrics_clusters",
+]
+
+
+def capture_gm():
+    """Statements of linker.clustering.compute_graph_metrics on a dedupe_only linker (plain unique_id as composite id).
+    Roles: predict_in (unique_id_l, unique_id_r, match_probability), clustered_in (cluster_id, unique_id, v),
+    bridges_in (node_l, node_r) = the table igraph's bridges are registered as; `__splink__nodes_integer_mapping`
+    (row_number() OVER (ORDER BY 1) - 1: any bijection onto 0..n-1) is an INPUT of the translated part."""
+    import pandas as pd
+
+    from splink import DuckDBAPI, Linker, SettingsCreator
+
+    errors = []
+    api = DuckDBAPI()
+    n = 6
+    df = pd.DataFrame({"unique_id": list(range(n)), "v": ["x"] * n})
+    settings = SettingsCreator(link_type="dedupe_only", comparisons=[], blocking_rules_to_generate_predictions=[])
+    linker = Linker(df, settings, api)
+    e = pd.DataFrame({"unique_id_l": [0, 1, 2, 4], "unique_id_r": [1, 2, 0, 5], "match_probability": [0.9, 0.8, 0.7, 0.2]})
+    dfp = linker.table_management.register_table_predict(e, overwrite=True)
+    cc = linker.clustering.cluster_pairwise_predictions_at_threshold(dfp, threshold_match_probability=GM_THR)
+    with Capture() as cap:
+        linker.clustering.compute_graph_metrics(dfp, cc, threshold_match_probability=GM_THR)
+    pm = _phys_map(cap.rec)
+    roles = {dfp.physical_name: "predict_in", cc.physical_name: "clustered_in"}
+    found = {}
+    order = []
+    for ex in cap.rec:
+        for nm, sql in ex["ctes"]:
+            sql = _subst(_subst(_norm(sql), pm), roles)
+            sql = re.sub(r"__splink__bridges_[0-9a-f]{6,}", "bridges_in", sql)
+            if nm in found and found[nm] != sql:
+                errors.append(f"statement {nm} is emitted twice with different text")
+            if nm not in found:
+                order.append(nm)
+            found[nm] = sql
+    missing = [nm for nm in GM_STMTS if nm not in found]
+    if missing:
+        errors.append(f"compute_graph_metrics did not emit {missing}")
+    extra = [nm for nm in order if nm not in GM_STMTS and nm != "__splink__nodes_integer_mapping"]
+    if extra:
+        errors.append(f"compute_graph_metrics emits statements the model does not know: {extra}")
+    return {"stmts": [(nm, found[nm]) for nm in GM_STMTS if nm in found], "errors": errors,
+            "mapping_sql": found.get("__splink__nodes_integer_mapping")}
+
+
+def write_gm() -> list[str]:
+    """(Re)generate Generated/GMSql.lean.  Returns error strings."""
+    cap = capture_gm()
+    errors = list(cap["errors"])
+    params = {repr(GM_THR): ("thr", "any")}
+    schemas = {
+        "predict_in": ["unique_id_l", "unique_id_r", "match_probability"],
+        "clustered_in": ["cluster_id", "unique_id", "v"],
+        "bridges_in": ["node_l", "node_r"],
+        "__splink__nodes_integer_mapping": ["composite_unique_id", "new_id"],
+    }
+    coltypes = {
+        "predict_in": ["int", "int", "any"],
+        "clustered_in": ["int", "int", "str"],
+        "bridges_in": ["int", "int"],
+        "__splink__nodes_integer_mapping": ["int", "int"],
+    }
+    ms = cap.get("mapping_sql") or ""
+    if "row_number() OVER(ORDER BY 1) - 1 AS new_id" not in ms or "SELECT composite_unique_id," not in ms:
+        errors.append(f"the node relabelling statement changed (expected composite_unique_id, row_number() OVER(ORDER BY 1) - 1 AS new_id): {ms[:200]}")
+    body = _translate_seq(cap["stmts"], schemas, params, errors, "gm/", coltypes)
+    L = ["import SplinkVerif.Model.Rel"]
+    L.append("/-! GENERATED by harness/translate/tsql.py from the SQL that `linker.clustering.compute_graph_metrics`")
+    L.append("(`graph_metrics.py`, `edge_metrics.py`) emits on the current tree for a dedupe_only linker.  Do not edit.")
+    L.append("")
+    L.append("Tables: `predict_in` (unique_id_l, unique_id_r, match_probability), `clustered_in` (cluster_id, unique_id, v),")
+    L.append("`__splink__nodes_integer_mapping` (composite_unique_id, new_id) — produced by `row_number() OVER (ORDER BY 1) - 1`, an input")
+    L.append("here —, `bridges_in` (node_l, node_r) = igraph's bridges in the relabelled ids.  Parameter `thr` = the threshold. -/")
+    L.append("namespace SplinkVerif.Gen.GMSql")
+    L.append("open SplinkVerif.Rel")
+    L.append("")
+    calls = {}
+    for nm, term, cols, used, sql in body:
+        ident = _ident(nm)
+        L.append(f"/-- `{nm}`: `{sql}` ; columns {cols} -/")
+        if term is None:
+            L.append(f"-- UNTRANSLATABLE: {nm}")
+            continue
+        args = "".join(f" ({p} : Val)" for p in used)
+        L.append(f"def {ident}{args} : Rel :=\n  {term}")
+        L.append("")
+        calls[nm] = ident + "".join(f" {p}" for p in used)
+    if len(calls) == len(GM_STMTS):
+        def lst(names):
+            return "[" + ", ".join(f"⟨{lean_str(nm)}, {calls[nm]}⟩" for nm in names) + "]"
+        L.append("/-- `_compute_metrics_nodes` -/")
+        L.append(f"def nodeStmts (thr : Val) : List Stmt :=\n  {lst(GM_STMTS[0:4])}")
+        L.append("")
+        L.append("/-- `compute_edge_metrics`, before igraph: the kept edges in the relabelled ids -/")
+        L.append(f"def edgeStmtsBefore (thr : Val) : List Stmt :=\n  {lst([GM_STMTS[0], GM_STMTS[4]])}")
+        L.append("")
+        L.append("/-- `compute_edge_metrics`, after igraph: bridges mapped back and joined to the kept edges -/")
+        L.append(f"def edgeStmtsAfter : List Stmt :=\n  {lst(GM_STMTS[5:7])}")
+        L.append("")
+        L.append("/-- `_compute_metrics_clusters` -/")
+        L.append(f"def clusterStmts : List Stmt :=\n  {lst(GM_STMTS[7:9])}")
+        L.append("")
+    L.append("end SplinkVerif.Gen.GMSql")
+    text = "\n".join(L) + "\n"
+    p = GEN / "GMSql.lean"
+    if not p.exists() or p.read_text() != text:
+        p.write_text(text)
+    return errors
+
+
 if __name__ == "__main__":
     import sys
 
     which = sys.argv[1] if len(sys.argv) > 1 else "cc"
-    errs = {"cc": write_cc, "multi": write_multi}[which]()
+    errs = {"cc": write_cc, "multi": write_multi, "gm": write_gm}[which]()
     print("\n".join(errs) or "ok")
-    print((GEN / {"cc": "CCSql.lean", "multi": "MultiSql.lean"}[which]).read_text()[:8000])
+    print((GEN / {"cc": "CCSql.lean", "multi": "MultiSql.lean", "gm": "GMSql.lean"}[which]).read_text()[:12000])
